@@ -15,4 +15,6 @@ func TestVerif_C06(t *testing.T) {
 	for i := 0; i < n; i++ {
 		out.emit(vpGenCase(rng, i, "c06"))
 	}
+	// level (ii): real session pairs, every flush through the socket fallback, lagging reader
+	vsRun(out, newVrand(uint64(venvInt("VERIF_SEED", 1))+0x51), venvInt("VERIF_N2", n/10), n)
 }
